@@ -200,7 +200,11 @@ def run_history(case):
                 live[path] = (obj, variant, stamp)
                 del conn.sent[:]
                 try:
-                    h.exportObject(obj)
+                    if si % 4 == 3:
+                        from . import c10
+                        h.exportObject(c10._plain_for(O, obj))    # reaches IDBusObject through a registered adapter
+                    else:
+                        h.exportObject(obj)
                 except Exception as e:
                     out.append(Disc(exc_key(e, 'export.raises'), exc_detail(e)))
                     break
